@@ -68,7 +68,7 @@ Proof. exact cm_output_utf8. Qed.
 Print Assumptions CmLeaf_cm_output_utf8.
 
 (* outc by itself: it inserts ASCII bytes only, and only for an ASCII byte *)
-Theorem CmLeaf_outc_ascii_only : outc_ok (outc 0%N).
+Theorem CmLeaf_outc_ascii_only : outc_ok outc.
 Proof. exact outc_is_ok. Qed.
 Print Assumptions CmLeaf_outc_ascii_only.
 
